@@ -38,7 +38,8 @@ type brDesc struct {
 const (
 	evTimer    = int32(-1)
 	evCrash    = int32(-3)
-	evComplete = int32(-10) // evComplete-k completes the k-th live bm request
+	evComplete = int32(-10) // evComplete-k completes the k-th live bm request (k < 10)
+	evLate     = int32(-20) // evLate-k runs the callback of the k-th cancelled-but-dispatched bm request (k < 10)
 )
 
 type xMsg struct {
@@ -200,6 +201,7 @@ type lState struct {
 	locked   int32
 	timers   int
 	pend     int
+	late     int
 	terminal bool
 }
 
@@ -294,6 +296,8 @@ func (x *explorer) applyEventFail(n *csNode, ev int32, fail int32) []int32 {
 		if raw != nil {
 			n.deliverBlockResult(raw, votes)
 		}
+	case ev <= evLate:
+		n.completeLate(int(evLate - ev))
 	case ev <= evComplete:
 		n.complete(int(evComplete - ev))
 	}
@@ -366,6 +370,7 @@ func (x *explorer) describe(n *csNode) *lState {
 		st.locked = n.cs.lockedRound
 		st.timers = len(n.pendingTimers())
 		st.pend = len(n.bm.live())
+		st.late = len(n.bm.zombies())
 	}
 	if len(n.finalized) > 0 {
 		st.fin = n.finalized[0]
@@ -502,6 +507,8 @@ func (x *explorer) evName(ev int32) string {
 	case ev <= evBlockResult:
 		d := x.brs[evBlockResult-ev]
 		return fmt.Sprintf("block result {block %s, commit votes of round %d by validators mask %04b}", d.block, d.round, d.mask)
+	case ev <= evLate:
+		return fmt.Sprintf("late callback of cancelled bm request #%d", evLate-ev)
 	default:
 		return fmt.Sprintf("complete bm request #%d", evComplete-ev)
 	}
@@ -686,6 +693,9 @@ func (x *explorer) search(cfg searchCfg) *gResult {
 				for k := 0; k < st.pend; k++ {
 					try(evComplete - int32(k))
 				}
+				for k := 0; k < st.late; k++ {
+					try(evLate - int32(k))
+				}
 				nm := int32(len(x.mt.msgs))
 				for m := int32(0); m < nm; m++ {
 					if g.bag.has(m) {
@@ -724,6 +734,8 @@ func (x *explorer) trace(edges []gEdge, id int32) []gEvent {
 		case e.ev <= evBlockResult:
 			raw, votes := x.blockResultBytes(x.brs[evBlockResult-e.ev])
 			ge.Kind, ge.Bytes, ge.Blk = "blockresult", hex.EncodeToString(votes), hex.EncodeToString(raw)
+		case e.ev <= evLate:
+			ge.Kind, ge.K = "late", int(evLate-e.ev)
 		default:
 			ge.Kind, ge.K = "complete", int(evComplete-e.ev)
 		}
@@ -769,6 +781,8 @@ func replayTraceFull(env *csEnv, correct []int, tr []gEvent, hook func(n *csNode
 			n.complete(e.K)
 		case "blockresult":
 			n.deliverBlockResult(unhex(e.Blk), unhex(e.Bytes))
+		case "late":
+			n.completeLate(e.K)
 		}
 		n.failAt = 0
 		if n.crashedInStep {
@@ -965,6 +979,8 @@ func (x *explorer) searchDev(cfg devCfg) *devResult {
 			case a.ev <= evBlockResult:
 				raw, votes := x.blockResultBytes(x.brs[evBlockResult-a.ev])
 				ge.Kind, ge.Bytes, ge.Blk = "blockresult", hex.EncodeToString(votes), hex.EncodeToString(raw)
+			case a.ev <= evLate:
+				ge.Kind, ge.K = "late", int(evLate-a.ev)
 			default:
 				ge.Kind, ge.K = "complete", int(evComplete-a.ev)
 			}
@@ -1186,6 +1202,9 @@ func (x *explorer) searchDev(cfg devCfg) *devResult {
 			}
 			for k := 1; k < st.pend; k++ {
 				alt(dAction{kind: "ev", node: i, ev: evComplete - int32(k)})
+			}
+			for k := 0; k < st.late; k++ {
+				alt(dAction{kind: "ev", node: i, ev: evLate - int32(k)})
 			}
 			if int(s.crashes) < cfg.maxCrashes {
 				alt(dAction{kind: "ev", node: i, ev: evCrash})
